@@ -387,7 +387,16 @@ impl RuntimeData {
             debug_assert!(!matches!(obj.marker, GcMarker::Black));
             match &mut obj.body {
                 CaoLangObjectBody::Table(obj) => {
-                    for (key, value) in obj.iter() {
+                    // walk the storage itself instead of looking every key up: an entry whose
+                    // key no longer hashes to its slot (a table used as key and modified
+                    // afterwards) is still referenced by the table
+                    for key in obj.keys() {
+                        unsafe {
+                            checked_enqueue_value!(key);
+                        }
+                    }
+                    let map: &crate::collections::hash_map::CaoHashMap<Value, Value, _> = obj;
+                    for (key, value) in map.iter() {
                         unsafe {
                             checked_enqueue_value!(key);
                             checked_enqueue_value!(value);
